@@ -237,6 +237,9 @@ def main():
             allm.append((f, desc, msrc, OWNERS[f], max(2, 16 // par)))
     rnd = random.Random(seed)
     rnd.shuffle(allm)
+    pres = os.path.join(V, "tools", "automut_results.json")
+    done = {r["file"] + "|" + r["desc"] for r in (json.load(open(pres)) if os.path.exists(pres) else [])}
+    allm = [m for m in allm if m[0] + "|" + m[1] not in done]      # mutants evaluated in earlier runs are not repeated
     jobs = allm[:sample]
     print("%d mutation sites in %d files, running %d" % (len(allm), len(files), len(jobs)))
     sys.stdout.flush()
